@@ -28,6 +28,8 @@ fn gen_preempt(g: &mut Rng, _tier: Tier) -> J {
     for _ in 0..nthreads {
         ths.push(obj! {
             "busy_ms" => *g.pick(&[5u64, 20, 40, 80, 200]),
+            // a second long computation on the same thread: it needs preempting while the first is parked
+            "busy2_ms" => *g.pick(&[0u64, 0, 40, 80]),
             "siblings" => g.range(0, 3),
             "syscall_co" => g.chance(1, 3),
             "syscall_ms" => *g.pick(&[15u64, 30, 60]),
@@ -69,6 +71,9 @@ struct Watch {
 impl Listener<(), Option<usize>> for Watch {
     fn on_state_changed(&self, local: &CoroutineLocal, old: SchedulableCoroutineState, new: SchedulableCoroutineState) {
         let Some(idx) = local.get::<usize>("tag").copied() else { return };
+        if std::env::var("VSIM_TRACE_TAG").is_ok() {
+            eprintln!("[tag {idx}] +{}us {:?}: {old:?} -> {new:?}", (now() % 1_000_000_000_000) / 1000, std::thread::current().id());
+        }
         let mut r = self.recs.lock().unwrap_or_else(|e| e.into_inner());
         if let (CoroutineState::Running, CoroutineState::Suspend((), _)) = (old, new) {
             r[idx].suspended_while_running += 1;
@@ -90,7 +95,11 @@ fn checksum(n: u64) -> usize {
     x
 }
 
+static ALL_SUBMITTED: std::sync::atomic::AtomicUsize = std::sync::atomic::AtomicUsize::new(0);
+
 fn body_preempt(plan: &J) {
+    ALL_SUBMITTED.store(0, std::sync::atomic::Ordering::SeqCst);
+    let nthreads_total = plan.ga("threads").len();
     let recs: Recs = Arc::new(StdMutex::new(Vec::new()));
     let mut handles = Vec::new();
     for (ti, t) in plan.ga("threads").iter().enumerate() {
@@ -136,6 +145,32 @@ fn body_preempt(plan: &J) {
                 None,
                 None,
             );
+            let busy2_ms = t.gu("busy2_ms");
+            if busy2_ms > 0 {
+                let b2 = add("busy2");
+                mine.push(b2);
+                let rc = recs.clone();
+                _ = sched.submit_co(
+                    move |_: &SchedulableSuspender<'_>, ()| {
+                        if let Some(co) = SchedulableCoroutine::current() {
+                            _ = co.put("tag", b2);
+                        }
+                        rc.lock().unwrap_or_else(|e| e.into_inner())[b2].started = Some(now());
+                        let mut acc = 0usize;
+                        for k in 0..busy2_ms {
+                            sim::cpu_work(1_000_000, 100_000);
+                            acc = acc.wrapping_add(checksum(k + 3));
+                        }
+                        let mut r = rc.lock().unwrap_or_else(|e| e.into_inner());
+                        r[b2].finished = Some(now());
+                        r[b2].result = Some(acc);
+                        Some(acc)
+                    },
+                    None,
+                    None,
+                );
+                probe("pre.two-busy");
+            }
             for k in 0..t.gu("siblings") {
                 let si = add("sibling");
                 mine.push(si);
@@ -185,15 +220,22 @@ fn body_preempt(plan: &J) {
                 );
                 probe("pre.syscall-co");
             }
-            // schedule until everything of this thread is done (bounded)
+            _ = ALL_SUBMITTED.fetch_add(1, std::sync::atomic::Ordering::SeqCst);
+            // schedule until everything is done (bounded)
             let t0 = now();
             loop {
-                if sched.try_timed_schedule(Duration::from_millis(10)).is_err() {
-                    fail("schedule-error", format!("scheduling thread {ti}: try_timed_schedule failed"));
+                match sched.try_timed_schedule(Duration::from_millis(10)) {
+                    Err(_) => fail("schedule-error", format!("scheduling thread {ti}: try_timed_schedule failed")),
+                    // nothing left to run before the slice was over: idle briefly like an event loop does,
+                    // instead of spinning through millions of scheduling points
+                    Ok((left, _)) if left > 0 => vstd::thread::sleep(Duration::from_micros(500)),
+                    Ok(_) => {}
                 }
+                // keep scheduling until every thread's coroutines are done: this scheduler may hold
+                // coroutines it stole from the others (an event loop never stops scheduling either)
                 let done = {
                     let r = recs.lock().unwrap_or_else(|e| e.into_inner());
-                    mine.iter().all(|i| r[*i].finished.is_some())
+                    ALL_SUBMITTED.load(std::sync::atomic::Ordering::SeqCst) >= nthreads_total && r.iter().all(|c| c.finished.is_some())
                 };
                 if done || now() - t0 > 2_000_000_000 {
                     break;
@@ -240,6 +282,7 @@ fn body_preempt(plan: &J) {
             let want = match c.kind.as_str() {
                 "busy" => (0..t.gu("busy_ms")).fold(0usize, |a, k| a.wrapping_add(checksum(k + 1))),
                 "syscall" => (0..t.gu("syscall_ms")).fold(0usize, |a, k| a.wrapping_add(checksum(k + 7))),
+                "busy2" => (0..t.gu("busy2_ms")).fold(0usize, |a, k| a.wrapping_add(checksum(k + 3))),
                 _ => c.result.unwrap_or(0),
             };
             if c.result != Some(want) {
@@ -248,6 +291,24 @@ fn body_preempt(plan: &J) {
         }
         // preemption: a long computation with a ready sibling is suspended once its slice is over,
         // and the sibling gets to run before the computation ends
+        // two long computations on one thread: each must be suspended while the other one waits
+        if let Some(b2) = mine.iter().map(|i| &r[*i]).find(|c| c.kind == "busy2") {
+            let b1 = &r[mine[0]];
+            if t.gu("busy_ms") >= 40 && t.gu("busy2_ms") >= 40 && !t.gb("yielding") {
+                for (me, other) in [(b1, b2), (b2, b1)] {
+                    let (Some(st), Some(fin)) = (me.started, me.finished) else { continue };
+                    // the other one existed and had not finished when this one started: it was waiting
+                    let other_waiting = other.finished.is_none_or(|f| f > st + 20_000_000);
+                    if other_waiting && fin - st >= 35_000_000 {
+                        match me.first_preempt {
+                            Some(p) if p <= st + 20_000_000 => probe("pre.preempted-both"),
+                            Some(p) => fail("preempt-late", format!("thread {ti}: the {} computation was first suspended {} us after it started while another long computation was waiting on the same thread (slice 10 ms)", me.kind, (p - st) / 1000)),
+                            None => fail("not-preempted", format!("thread {ti}: the {} computation ({} ms without yields) was never suspended although another long computation was waiting on the same thread", me.kind, (fin - st) / 1_000_000)),
+                        }
+                    }
+                }
+            }
+        }
         let busy = &r[mine[0]];
         let sibs: Vec<&CoRec> = mine.iter().map(|i| &r[*i]).filter(|c| c.kind == "sibling").collect();
         let busy_ms = t.gu("busy_ms");
@@ -264,7 +325,8 @@ fn body_preempt(plan: &J) {
                 }
                 let fin = busy.finished.unwrap_or(u64::MAX);
                 if !sibs.iter().all(|s| s.finished.is_some_and(|f| f < fin)) {
-                    fail("not-preempted", format!("thread {ti}: a ready sibling finished only after the {busy_ms} ms computation"));
+                    let tl: Vec<String> = mine.iter().map(|i| &r[*i]).map(|c| format!("{} start {:?} first-suspend {:?} end {:?}", c.kind, c.started.map(|x| (x % 1_000_000_000_000) / 1000), c.first_preempt.map(|x| (x % 1_000_000_000_000) / 1000), c.finished.map(|x| (x % 1_000_000_000_000) / 1000))).collect();
+                    fail("not-preempted", format!("thread {ti}: a ready sibling finished only after the {busy_ms} ms computation; timeline (us): {tl:?}"));
                 }
             }
         }
